@@ -192,7 +192,7 @@ def check_props_file(pid, log):
 # running the two sides
 
 def run_side(binary, case_text, timeout=900, memlimit_kb=12 * 1024 * 1024):
-    cmd = "ulimit -v %d; ulimit -s unlimited 2>/dev/null || ulimit -s 1000000; exec %s" % (memlimit_kb, binary)
+    cmd = "ulimit -v %d; ulimit -s 2000000 2>/dev/null; exec %s" % (memlimit_kb, binary)
     rc, out, dt = sh(cmd, timeout=timeout, inp=case_text)
     return rc, out, dt
 
